@@ -1,5 +1,6 @@
 import PkgProofs.Lemmas.MarkerEval
 import PkgProofs.Lemmas.MarkerParse
+import PkgProofs.Lemmas.MarkerLexParse
 /-!
 # C07 — Marker evaluation follows PEP 508 semantics
 
@@ -11,7 +12,7 @@ External: `Mk.Ext` (`specMatch`, `canonName`) — arbitrary in every theorem.
 All statements quantify over arbitrary nesting depth, list length, strings and environments.
 -/
 namespace C07
-open Py Mk Pep508 MkEval MkParse
+open Py Mk Pep508 MkEval MkParse MkFmt MkLex MkLexP
 set_option linter.unusedSimpArgs false
 
 /-! ### 1. The `groups` algorithm computes the value of the or-of-ands formula the list denotes -/
@@ -213,6 +214,17 @@ theorem parse_denotes_formula_tokens (e : Expr) (hp : ∀ a ∈ exprAtoms e, Pla
     parseToks e.toks = .ok (lst e) := by
   rw [toks_eq]; exact parse_print (lst e) e.sem (formulaOf_lst e) (by rw [atoms_lst]; exact hp)
 
+/-- **Precedence and grouping at character level, canonical layout.**  The real entry point — the
+context-sensitive tokenizer (regenerated rules, `\b`) and the parser on characters — run on the expression's
+token sequence spelled with single spaces (none inside parentheses), returns a list denoting exactly the
+expression's formula.  (Other layouts — white space, quote style, PEP 345 spellings — are tied by the
+correspondence check.) -/
+theorem parse_precedence_char (e : Expr) (hc : ∀ a ∈ exprAtoms e, CanonAtom a) :
+    ∃ l, parse (spell e.toks) = .ok l ∧ formulaOf l = some e.sem := by
+  refine ⟨lst e, ?_, formulaOf_lst e⟩
+  rw [toks_eq]
+  exact parse_spell_print (lst e) e.sem (formulaOf_lst e) (by rw [atoms_lst]; exact hc)
+
 /-! ### 6. `Marker.__init__`'s normalisation does not change the meaning of variable/literal comparisons -/
 
 /-- a comparison between one variable and one literal -/
@@ -242,17 +254,12 @@ theorem atoms_map (g : Atom → Atom) : (f : Formula) → atoms (MkParse.Formula
   | .and l r => by simp [MkParse.Formula.map, atoms, atoms_map g l, atoms_map g r]
   | .or l r => by simp [MkParse.Formula.map, atoms, atoms_map g l, atoms_map g r]
 
-/-- **End to end (token level).** For every expression over variable/literal comparisons, the `Marker`
-built from its token sequence (parse, then `_normalize_extra_values`) evaluates in every environment to the
-boolean value of the expression's formula under the statement's comparison semantics. -/
-theorem marker_evaluate_refines (X : Ext) (hc : ∀ s, X.canonName (X.canonName s) = X.canonName s)
-    (dflt : List (Str × Str)) (supplied : Option Env) (e : Expr)
-    (hp : ∀ a ∈ exprAtoms e, PlainAtom a) (h1 : ∀ a ∈ atoms e.sem, OneVar a)
+/-- the `Marker` for the list the parser builds for an expression evaluates to the expression's formula -/
+theorem evaluate_lst (X : Ext) (hc : ∀ s, X.canonName (X.canonName s) = X.canonName s)
+    (dflt : List (Str × Str)) (supplied : Option Env) (e : Expr) (h1 : ∀ a ∈ atoms e.sem, OneVar a)
     (hd : ∀ a ∈ atoms e.sem, (atomSem X (effEnv dflt supplied) a).isSome)
     (env : Env) (hb : buildEnv dflt supplied = .ok env) :
-    ∃ l, parseToks e.toks = .ok l ∧
-      evaluate X dflt supplied (normalizeExtra X l) = e.sem.eval (sem X dflt supplied) := by
-  refine ⟨lst e, parse_denotes_formula_tokens e hp, ?_⟩
+    evaluate X dflt supplied (normalizeExtra X (lst e)) = e.sem.eval (sem X dflt supplied) := by
   have hf : formulaOf (normalizeExtra X (lst e)) = some (MkParse.Formula.map (normAtom X) e.sem) := by
     have := fOfL_norm X (lst e)
     rw [show fOfL (lst e) = some e.sem from formulaOf_lst e] at this
@@ -267,6 +274,31 @@ theorem marker_evaluate_refines (X : Ext) (hc : ∀ s, X.canonName (X.canonName 
     rw [atomSem_normAtom X hc _ b (h1 b hb1)]
     exact hd b hb1
 
+/-- **End to end (token level).** For every expression over variable/literal comparisons, the `Marker`
+built from its token sequence (parse, then `_normalize_extra_values`) evaluates in every environment to the
+boolean value of the expression's formula under the statement's comparison semantics. -/
+theorem marker_evaluate_refines (X : Ext) (hc : ∀ s, X.canonName (X.canonName s) = X.canonName s)
+    (dflt : List (Str × Str)) (supplied : Option Env) (e : Expr)
+    (hp : ∀ a ∈ exprAtoms e, PlainAtom a) (h1 : ∀ a ∈ atoms e.sem, OneVar a)
+    (hd : ∀ a ∈ atoms e.sem, (atomSem X (effEnv dflt supplied) a).isSome)
+    (env : Env) (hb : buildEnv dflt supplied = .ok env) :
+    ∃ l, parseToks e.toks = .ok l ∧
+      evaluate X dflt supplied (normalizeExtra X l) = e.sem.eval (sem X dflt supplied) :=
+  ⟨lst e, parse_denotes_formula_tokens e hp, evaluate_lst X hc dflt supplied e h1 hd env hb⟩
+
+/-- **End to end (character level, canonical layout).**  `Marker(text).evaluate(environment)`, where `text`
+is the expression spelled with single spaces, is the boolean value of the expression's formula under the
+statement's comparison semantics in the statement's effective environment. -/
+theorem marker_of_text_refines (X : Ext) (hc : ∀ s, X.canonName (X.canonName s) = X.canonName s)
+    (dflt : List (Str × Str)) (supplied : Option Env) (e : Expr)
+    (hcan : ∀ a ∈ exprAtoms e, CanonAtom a) (h1 : ∀ a ∈ atoms e.sem, OneVar a)
+    (hd : ∀ a ∈ atoms e.sem, (atomSem X (effEnv dflt supplied) a).isSome)
+    (env : Env) (hb : buildEnv dflt supplied = .ok env) :
+    ∃ m, mkMarker X (spell e.toks) = .ok m ∧ evaluate X dflt supplied m = e.sem.eval (sem X dflt supplied) := by
+  refine ⟨normalizeExtra X (lst e), ?_, evaluate_lst X hc dflt supplied e h1 hd env hb⟩
+  unfold mkMarker
+  rw [toks_eq, parse_spell_print (lst e) e.sem (formulaOf_lst e) (by rw [atoms_lst]; exact hcan)]
+  rfl
 
 /-! ### Non-vacuity: the hypotheses above are satisfiable by a non-trivial value -/
 section Examples
@@ -285,6 +317,7 @@ def dflt0 : List (Str × Str) := [(os_name, [97]), (s_pfv, [51, 46, 57, 43])]
 instance (a : Atom) : Decidable (OneVar a) := by unfold OneVar; infer_instance
 
 example : ∀ a ∈ exprAtoms exE, PlainAtom a := by decide
+example : ∀ a ∈ exprAtoms exE, CanonAtom a := by decide
 example : parseToks exE.toks = .ok (lst exE) := by rfl
 example : formulaOf (lst exE) = some (.or (.atom a1) (.and (.atom a2) (.or (.atom a3) (.atom a4)))) := by decide
 example : ∀ a ∈ atoms exE.sem, OneVar a := by decide
